@@ -29,6 +29,10 @@ CLAIMED = {
             "deterministic simulation: seeded push/reset/load/crash/IO-error histories on a fault-injecting node store, checked step by step against an RFC 6962 leaf-vector model",
             "Seeded search over operation/fault histories on the real storage-backed, in-memory and calculator trees; every step is compared with an independent RFC 6962 reference (root, count, every proof, refusals). Sampling, not enumeration: a clean batch is evidence, not proof.",
             "Trusted: the ~100-line RFC 6962 reference, SimKV's crash model (atomic loss of un-flushed writes; partial survival only without reset/fork in the window), SHA-256 from the sha2 crate."),
+    "C23": ("mem", "DESIGN.md §6 C23, §4.4",
+            "deterministic simulation: 1–3 simulated tasks cycle real MemoryInstances through a simulated pool (dirty hand-out, reset on acquire) and run seeded histories of growth / access / copy / reset / snapshot+rollback / == on them, checked operation by operation against a sparse flat 64 MiB reference model",
+            "Seeded search over pool lives and operation histories (≤ 64 operations per history, 2 % of the runs at the 64 MiB limit); after every operation Ok/Err, bytes read, zero content of newly allocated heap, overlap refusal, the HP register and a sampled sweep of all region borders are compared with the flatmem model, a fresh twin instance shadows every reused instance, and rollbacks are compared with the snapshot. Sampling, not enumeration: a clean batch is evidence, not proof.",
+            "Trusted: the ~300-line flatmem model (accessibility rule end ≤ stack_hwm ∨ start ≥ hp, zero on (re)exposure), the pool discipline copied from Interpreter::init_inner (reset + HP := VM_MAX_RAM), the hooked OwnershipRegisters constructor. Empty ranges strictly inside the gap and ownership refusals are not judged. Known finding F-4 (collect_rollback_data panics when the snapshot's stack extent is above the current one) is listed in known_findings.json."),
 }
 
 PLANNED = {
